@@ -1,10 +1,19 @@
-"""Minimal symbolic string models: hex(n) of a symbolic non-negative int (only slicing off the
-'0x' prefix and int(.., 16) are modelled: an inverse pair), and decimal numerals (SDec)."""
-from .values import Unsupported, SInt, bounds
+"""Minimal symbolic string models.
+
+SHex: hex(n) of a symbolic non-negative int (only [2:] and int(.., 16) are modelled: an inverse pair).
+SStr (values.SStr): decimal digit strings of symbolic integers with a concrete length -- what mpmath's printing code
+builds with str(int), slicing, concatenation, rstrip('0'), digit comparisons and the carry loop of to_str.
+"""
+import operator
+
+import z3
+
+from .values import (G, Unsupported, SInt, SBool, SStr, bounds, bvv, zt, zb, mk_int, mk_bool, narrow_udivrem, is_sym)
+
+NORMAL, RAISE = 0, 2
 
 
 class SHex:
-    """hex(n)[skip:] for symbolic n >= 0; skip is how many leading characters were sliced off"""
     def __init__(self, n, strip_needed):
         self.n = n
         self.off = 0
@@ -22,4 +31,141 @@ class SHex:
 class SDec:
     @staticmethod
     def of(eng, st, n):
-        raise Unsupported('str() of symbolic int (decimal model not enabled for this harness)')
+        """str(n) for a symbolic int -> outcomes [(state, NORMAL, SStr)] (forks on the number of digits)"""
+        lo, hi = bounds(n)
+        if lo < 0:
+            if eng.feasible(st.pc, zt(n) < bvv(0)):
+                raise Unsupported('str() of a possibly negative symbolic int')
+            lo = 0
+        nt = zt(n)
+        if lo == 0 and not eng.feasible(st.pc, nt == bvv(0)):
+            lo = 1
+        lens = list(range(len(str(max(lo, 0))), len(str(hi)) + 1))
+        outs = []
+        for L in lens:
+            lo_L = 10 ** (L - 1) if L > 1 else 0
+            hi_L = 10 ** L - 1
+            cond = z3.And(z3.UGE(nt, bvv(max(lo_L, lo))), z3.ULE(nt, bvv(min(hi_L, hi))))
+            if len(lens) > 1:
+                if not eng.feasible(st.pc, cond):
+                    continue
+                s2 = st.fork(cond)
+            else:
+                s2 = st
+            chars = []
+            nhi = min(hi_L, hi)
+            for i in range(L):
+                p10 = 10 ** (L - 1 - i)
+                q = narrow_udivrem(nt, bvv(p10), nhi, p10, True) if p10 > 1 else nt
+                d = narrow_udivrem(q, bvv(10), nhi // p10, 10, False)
+                dlo = 1 if (i == 0 and (L > 1 or lo >= 1)) else 0
+                chars.append(mk_int(d, dlo, 9))
+            outs.append((s2, NORMAL, SStr(chars)))
+        if not outs:
+            raise Unsupported('str(): no feasible digit count')
+        return outs
+
+
+def char_digit(c):
+    """digit value of a character of an SStr (int/SInt) or None for a non-digit"""
+    if isinstance(c, str):
+        return int(c) if c.isdigit() else None
+    return c
+
+
+def char_eq(c, d):
+    """c == d for SStr characters / 1-char strs -> bool or SBool"""
+    if isinstance(c, str) and isinstance(d, str):
+        return c == d
+    dc, dd = char_digit(c), char_digit(d)
+    if dc is None or dd is None:
+        return False
+    if not is_sym(dc) and not is_sym(dd):
+        return dc == dd
+    return mk_bool(zt(dc) == zt(dd))
+
+
+def seq_eq(a, b):
+    ca = a.chars if isinstance(a, SStr) else list(a)
+    cb = b.chars if isinstance(b, SStr) else list(b)
+    if len(ca) != len(cb):
+        return False
+    parts = [char_eq(x, y) for x, y in zip(ca, cb)]
+    if any(p is False for p in parts):
+        return False
+    ps = [zb(p) for p in parts if p is not True]
+    return mk_bool(z3.And(ps)) if ps else True
+
+
+def contains(a, b):
+    """a in b  for a 1-char SStr a and a concrete str b"""
+    if len(a) != 1:
+        raise Unsupported('substring test on symbolic string')
+    parts = [char_eq(a.chars[0], ch) for ch in b]
+    if any(p is True for p in parts):
+        return True
+    ps = [zb(p) for p in parts if p is not False]
+    return mk_bool(z3.Or(ps)) if ps else False
+
+
+def concat(a, b):
+    ca = a.chars if isinstance(a, SStr) else list(a)
+    cb = b.chars if isinstance(b, SStr) else list(b)
+    return SStr(ca + cb)
+
+
+def to_int(s):
+    """int(s) for an all-digit SStr"""
+    acc = 0
+    for c in s.chars:
+        d = char_digit(c)
+        if d is None:
+            raise Unsupported('int() of a symbolic string with non-digits')
+        from .values import binop
+        acc = binop(operator.add, binop(operator.mul, acc, 10), d)
+    return acc
+
+
+class SStrMethod:
+    def __init__(self, s, name):
+        self.s, self.name = s, name
+
+    def invoke(self, eng, st, args, kwargs):
+        s = self.s
+        if self.name == 'rstrip':
+            if len(args) != 1 or args[0] != '0':
+                raise Unsupported('rstrip of a symbolic string with other than "0"')
+            outs = []
+            cur = st
+            n = len(s)
+            # k trailing zeros stripped: chars[n-k:] all '0' and chars[n-k-1] != '0' (or k == n)
+            for k in range(0, n + 1):
+                conds = []
+                ok = True
+                for c in s.chars[n - k:]:
+                    e = char_eq(c, '0')
+                    if e is False:
+                        ok = False
+                        break
+                    if e is not True:
+                        conds.append(zb(e))
+                if not ok:
+                    break
+                if k < n:
+                    e = char_eq(s.chars[n - k - 1], '0')
+                    if e is True:
+                        continue
+                    if e is not False:
+                        conds.append(z3.Not(zb(e)))
+                if conds:
+                    c_ = z3.And(conds)
+                    if not eng.feasible(st.pc, c_):
+                        continue
+                    outs.append((st.fork(c_), NORMAL, SStr(s.chars[:n - k])))
+                else:
+                    outs.append((st, NORMAL, SStr(s.chars[:n - k])))
+                    break
+            return outs
+        if self.name in ('lower', 'strip'):
+            return [(st, NORMAL, s)]
+        raise Unsupported('method %s of a symbolic string' % self.name)
